@@ -38,11 +38,16 @@ def run(cmd, timeout=None, env=None, cwd=None, check=False, capture=True, input=
 
 
 class Ctx:
-    def __init__(self, prop, tier, seed):
+    def __init__(self, prop, tier, seed, replay=None):
         self.prop, self.tier, self.seed = prop, tier, seed
         self.t0 = time.time()
         base = os.environ.get("TMPDIR", "/var/tmp")
         self.dir = tempfile.mkdtemp(prefix="hwloc-verif.%s." % prop, dir=base)
+        rp = os.path.join(VERIF, "evidence", "replays")
+        if os.path.isdir(rp) and not replay:
+            for f in os.listdir(rp):
+                if f.startswith(prop + "-") and os.path.isfile(os.path.join(rp, f)):
+                    os.unlink(os.path.join(rp, f))
         self.libdir = None
         self.tlc_stats = {"states": 0, "transitions": 0, "runs": []}
         self.accepted = 0          # behaviours validated against the implementation
